@@ -194,6 +194,12 @@ func (x *Ex) genFuncsMore(body *LeanFile) {
 		{"internal/domutil", "", "GetFirstElementByTagNameInc"},
 		{"internal/domutil", "", "RemoveDuplicateAttributes"},
 	})
+	// how the page-number finder reads text: what Model/Terms.lean models
+	x.bodyGroup(body, "pageTermBodies", []string{"C16", "C17"}, [][3]string{
+		{"internal/pagination", "PageNumberFinder", "addNonLinkTextIfValid"},
+		{"internal/pagination", "PageNumberFinder", "addLinkIfValid"},
+		{"internal/pagination", "PageNumberFinder", "linkTextToNumber"},
+	})
 	// the prefix test whose success licenses `linkHref[lenPrefix:]` in PrevNextFinder.FindOutlink
 	x.bodyStmts(body, "internal/stringutil", "", "HasPrefixIgnoreCase", "hasPrefixIgnoreCaseBody", "C01", "C16")
 }
